@@ -1,8 +1,8 @@
 (* C02 - Everything is lazy: no read before demand, bounded read per output.
    Only statements; every proof is [exact lemma]. *)
 From Coq Require Import List Bool Arith ZArith String.
-From AL Require Import C08.Model C02.Machine C02.Spec C02.MachineLemmas C02.Model C02.Check
-  C02.Proofs_Families C02.Proofs_Blocks C02.Proofs_Data C02.Proofs_Tee C02.Proofs_Resample C02.Proofs_Pipeline C02.Proofs_Corollaries.
+From AL Require Import C08.Model C02.Machine C02.Spec C02.MachineLemmas C02.GSafe C02.Tight C02.GTight C02.Model C02.Check
+  C02.Proofs_Families C02.Proofs_Blocks C02.Proofs_Data C02.Proofs_Tee C02.Proofs_Resample C02.Proofs_Pipeline C02.Proofs_Filter C02.Proofs_Tight C02.Proofs_Corollaries.
 Import ListNotations.
 Local Open Scope nat_scope.
 
@@ -249,26 +249,26 @@ Print Assumptions C02_trace_yields.
 (* Every pipeline (first stage + any list of further stages) of admissible stages satisfies the
    checker used on the implementation's traces, for every source configuration of the harness,
    every number of demands, every source index. *)
-(* PARTIAL: [stage_ok] excludes GFilter (Stream.filter / ifilter as a stage of a pipeline): its need depends on
-   the data, so it has no data-independent [safe] certificate; its exact need is C02_mfilter_need (stand-alone),
-   and pipelines starting with a filter are covered by the correspondence check only. *)
-Theorem C02_pipeline_bounded_partial : forall (first : stage) (rest : list stage),
+(* closed-form need for pipelines WITHOUT filter stages (their need does not depend on the data); the
+   statement for every pipeline, filters included, is C02_pipeline_bounded / C02_pipeline_safe below *)
+Theorem C02_pipeline_bounded_data_independent : forall (first : stage) (rest : list stage),
   stage_ok first -> Forall stage_ok rest ->
   forall (ds : list srcd) (k i : nat), etr_ok (only i) (pneed first rest i) 0 0 (ptrace first rest ds k) = true.
 Proof. exact model_bounded. Qed.
-Print Assumptions C02_pipeline_bounded_partial.
+Print Assumptions C02_pipeline_bounded_data_independent.
 
 (* the same on arbitrary environments, as a [safe] certificate *)
-Theorem C02_pipeline_safe_partial : forall (first : stage) (rest : list stage) (c : nat -> bool),
+Theorem C02_pipeline_safe_data_independent : forall (first : stage) (rest : list stage) (c : nat -> bool),
   stage_ok first -> Forall stage_ok rest -> safe c (pneedc first rest c) (pmach first rest).
 Proof. exact pmach_safe. Qed.
-Print Assumptions C02_pipeline_safe_partial.
+Print Assumptions C02_pipeline_safe_data_independent.
 
 (* exact composed need and explicit fuel bound for chains of any depth on endless sources *)
-(* PARTIAL: [stage_live] = Mealy, zip, skip, pad, blocks, batched, parallel, overlap-add, resample, cycle, zcross.
-   Missing: exact counts for tee (only the bound C02_mtee_bounded) and filter inside pipelines; limit, takewhile
-   and chain-of-sources end by themselves, so they have bounds (C02_*_bounded) but no endless-output statement. *)
-Theorem C02_pipeline_exact_partial : forall (first : stage) (rest : list stage),
+(* productivity ("first outputs in finite time", explicit fuel) for pipelines of stages that never end by
+   themselves on endless sources: [stage_live] = Mealy, zip, skip, pad, blocks, batched, parallel, overlap-add,
+   resample, cycle, zcross.  Exact counts for ALL admissible stages (with horizons for the self-ending ones) are
+   C02_pipeline_exact / C02_filter_pipeline_exact below. *)
+Theorem C02_pipeline_productive : forall (first : stage) (rest : list stage),
   stage_live first -> Forall stage_live rest ->
   forall E : env nat, endless E -> forall (k fuel : nat) (e : est E),
   S k * (pbound (sbound first) rest + 1) <= fuel ->
@@ -276,7 +276,117 @@ Theorem C02_pipeline_exact_partial : forall (first : stage) (rest : list stage),
   nyields (run (pmach first rest) E fuel (S k) (init _) e) = S k /\
   clean (run (pmach first rest) E fuel (S k) (init _) e) = true.
 Proof. exact pipeline_exact. Qed.
-Print Assumptions C02_pipeline_exact_partial.
+Print Assumptions C02_pipeline_productive.
+
+(* ------------------------------------------------------------------ data-indexed needs: filters in pipelines *)
+(* [gsafe c m A]: whenever m is about to read a counted source, having been delivered the items h and having
+   yielded ys, [A h ys] holds.  Every counted read of every run, on every environment, happens at such a moment. *)
+Theorem C02_bounded_data_indexed : forall (I O : Type) (c : nat -> bool) (m : machine I O) (A : list I -> list O -> Prop),
+  gsafe c m A -> forall (E : env I) (fuel k : nat) (e : est E), run_ok c m A E fuel k (init m) e [] [].
+Proof. exact (@gsafe_run). Qed.
+Print Assumptions C02_bounded_data_indexed.
+
+(* the data independent certificates (all the families above) are instances: A h ys := |h|+1 <= need (|ys|+1) *)
+Theorem C02_data_independent_instance : forall (I O : Type) (c : nat -> bool) (m : machine I O) (n : nat -> nat),
+  safe c n m -> gsafe c m (fun h ys => S (List.length h) <= n (S (List.length ys))).
+Proof. exact (@safe_gsafe). Qed.
+Print Assumptions C02_data_independent_instance.
+
+(* filter: a read is allowed only while every passing item seen so far has been yielded, i.e. item |h|+1 is read
+   only if the (|ys|+1)-th passing item is not among h: reads <= 1 + index of the k-th passing item, any data *)
+Theorem C02_mfilter_bounded : forall (A : Type) (p : A -> bool) (c : nat -> bool),
+  gsafe c (mfilter p) (fun h ys => List.length (filter p h) <= List.length ys).
+Proof. exact (@mfilter_gsafe). Qed.
+Print Assumptions C02_mfilter_bounded.
+
+(* needs compose for arbitrary data-indexed A: m2 o m1 may read after (h, ys) only if, for the intermediate items
+   hm that m1 produced from h, m1 may read after (h, hm) and m2 may read after (hm, ys) *)
+Theorem C02_compose_reads_data_indexed : forall (I M O : Type) (m2 : machine M O) (m1 : machine I M) (c : nat -> bool)
+  (A1 : list I -> list M -> Prop) (A2 : list M -> list O -> Prop),
+  gsafe c m1 A1 -> gsafe every m2 A2 ->
+  gsafe c (comp m2 m1) (fun h ys => exists hm, (exists s1, reach c m1 s1 h hm) /\ A1 h hm /\ A2 hm ys).
+Proof. exact (@gsafe_comp). Qed.
+Print Assumptions C02_compose_reads_data_indexed.
+
+(* every pipeline of the stage table - filters at ANY position, any depth, any data, any environment *)
+Theorem C02_pipeline_safe : forall (first : stage) (rest : list stage) (c : nat -> bool),
+  stage_okf first -> Forall stage_okf rest -> gsafe c (pmach first rest) (pallow first rest c).
+Proof. exact pmach_gsafe. Qed.
+Print Assumptions C02_pipeline_safe.
+
+(* the checker used on the implementation's traces holds for the model on every case the harness can generate:
+   the first stage may be a filter (x mod m = r, r < m, on the counting sources), the later stages any admissible
+   stage; the closed form need of a filter is r + (N-1)*m + 1 for the N outputs the later stages need.
+   (A filter at a later position has no closed form in the source items: its bound is C02_pipeline_safe.) *)
+Theorem C02_pipeline_bounded : forall (first : stage) (rest : list stage),
+  stage_ok1 first -> Forall stage_ok rest ->
+  forall (ds : list srcd) (k i : nat), etr_ok (only i) (pneed first rest i) 0 0 (ptrace first rest ds k) = true.
+Proof. exact model_bounded_all. Qed.
+Print Assumptions C02_pipeline_bounded.
+
+(* ------------------------------------------------------------------ exact counts with horizons *)
+(* [tight c need ok m]: while the sources deliver items, output j (for ok j) is yielded after exactly need j
+   counted items, and m does not stop by itself before an output inside the horizon ok. *)
+Theorem C02_exact_on_runs : forall (I O : Type) (c : nat -> bool) (need : nat -> nat) (ok : nat -> bool) (m : machine I O),
+  tight c need ok m -> forall (E : env I) (fuel k : nat) (e : est E), run_exact c need ok m E fuel k (init m) e 0 0.
+Proof. exact (@tight_run). Qed.
+Print Assumptions C02_exact_on_runs.
+
+Theorem C02_compose_reads_exact_horizon : forall (I M O : Type) (m2 : machine M O) (m1 : machine I M) (c : nat -> bool)
+  (n1 n2 : nat -> nat) (ok1 ok2 : nat -> bool),
+  n1 0 = 0 -> mono n2 -> (forall a b, a <= b -> ok1 b = true -> ok1 a = true) ->
+  tight c n1 ok1 m1 -> tight every n2 ok2 m2 -> safe every n2 m2 ->
+  tight c (fun k => n1 (n2 k)) (fun k => ok2 k && ok1 (n2 k)) (comp m2 m1).
+Proof. exact (@tight_comp). Qed.
+Print Assumptions C02_compose_reads_exact_horizon.
+
+(* limit n: output k <= n costs exactly min n k = k items; it stops by itself only after n outputs *)
+Theorem C02_mlimit_need : forall (A : Type) (n : nat) (c : nat -> bool), c 0 = true ->
+  tight c (need_limit n) (fun k => k <=? n) (@mlimit A n).
+Proof. exact (@mlimit_tight). Qed.
+Print Assumptions C02_mlimit_need.
+
+(* tee pulled along a schedule: demand k (k <= |sched|) has cost exactly the maximum over the copies of the
+   number of demands addressed to them among the first k *)
+Theorem C02_mtee_need : forall (A : Type) (n : nat) (sched : list nat) (c : nat -> bool),
+  c 0 = true -> Forall (fun ch => ch < n) sched ->
+  tight c (need_tee n sched) (fun k => k <=? List.length sched) (@mtee A n sched).
+Proof. exact (@mtee_tight). Qed.
+Print Assumptions C02_mtee_need.
+
+(* Pipelines of any depth: exact composed need inside the composed horizon [pok].  Horizons of the stages ([sok]):
+   unbounded for Mealy, zip, skip, pad, blocks, batched, parallel, overlap-add, resample, cycle, zcross; k <= n for
+   limit n; k <= |sched| for tee; EMPTY for takewhile, chain of sources, resample with a step stream and a nat-need
+   filter - these end by themselves depending on the data or on another source, so only their bounds
+   (C02_*_bounded, C02_pipeline_safe) are claimed.  A filter as first stage has its exact data-indexed statement
+   in C02_filter_pipeline_exact. *)
+Theorem C02_pipeline_exact : forall (first : stage) (rest : list stage) (c : nat -> bool),
+  c 0 = true -> stage_okx first -> Forall stage_ok rest ->
+  tight c (pneedc first rest c) (pok first rest) (pmach first rest).
+Proof. exact pmach_tight. Qed.
+Print Assumptions C02_pipeline_exact.
+
+(* data-indexed exactness: output j is yielded when the delivered items h satisfy X h j *)
+Theorem C02_exact_data_indexed : forall (I O : Type) (c : nat -> bool) (X : list I -> nat -> Prop) (ok : nat -> bool)
+  (m : machine I O), gtight c X ok m ->
+  forall (E : env I) (fuel k : nat) (e : est E), run_exacth c X ok m E fuel k (init m) e [] 0.
+Proof. exact (@gtight_run). Qed.
+Print Assumptions C02_exact_data_indexed.
+
+(* filter, any predicate, any data: output j is yielded exactly when the items read end with the j-th passing one *)
+Theorem C02_mfilter_exact : forall (A : Type) (p : A -> bool) (c : nat -> bool), c 0 = true ->
+  gtight c (ends_with_pass p) (fun _ => true) (mfilter p).
+Proof. exact (@mfilter_gtight). Qed.
+Print Assumptions C02_mfilter_exact.
+
+(* filter followed by any pipeline of admissible stages: output k is yielded exactly when the items read end with
+   the N(k)-th passing item, N the composed need of the later stages *)
+Theorem C02_filter_pipeline_exact : forall (m r : nat) (rest : list stage), Forall stage_ok rest ->
+  gtight (only 0)
+    (fun h k => ends_with_pass (fun x => Nat.eqb (x mod m) r) h (fold_right (fun g k' => sneedc g every k') k rest))
+    (fold_ok (fun _ => true) rest) (pmach (GFilter m r) rest).
+Proof. exact filter_pipeline_exact. Qed.
+Print Assumptions C02_filter_pipeline_exact.
 
 (* ------------------------------------------------------------------ non-vacuity *)
 (* the STFT pipeline of the stage table on an endless counter: 3 items for the first two samples,
@@ -301,6 +411,18 @@ Example C02_example_tee :
   ptrace (GTee 2 [0; 0; 1; 1; 1; 0; 1]) [] [SInf] 7 = [ER 0; EY; ER 0; EY; EY; EY; ER 0; EY; EY; ER 0; EY].
 Proof. split; [repeat constructor|vm_compute; split; reflexivity]. Qed.
 Print Assumptions C02_example_tee.
+
+(* horizons and data-indexed hypotheses are not vacuous: limit 3 then blocks(2,1) gives exactly two blocks
+   (the third would need a 4th item); a filter x mod 3 = 1 followed by blocks(2,2) needs items up to 4 (the 2nd
+   passing item) for its first block, and the judgement of the harness accepts that trace *)
+Example C02_example_horizon :
+  map (pok (GLimit 3) [GBlocks 2 1]) [1; 2; 3] = [true; true; false] /\
+  map (pneed (GLimit 3) [GBlocks 2 1] 0) [1; 2] = [2; 3] /\
+  stage_ok1 (GFilter 3 1) /\ Forall stage_ok [GBlocks 2 2] /\
+  ptrace (GFilter 3 1) [GBlocks 2 2] [SInf] 1 = [ER 0; ER 0; ER 0; ER 0; ER 0; EY] /\
+  pneed (GFilter 3 1) [GBlocks 2 2] 0 1 = 5.
+Proof. vm_compute. repeat split; auto with arith. Qed.
+Print Assumptions C02_example_horizon.
 
 Example C02_example_hyps :
   stage_ok (GBlocks 3 2) /\ Forall stage_ok [GMealy; GOla 3 2 false] /\
